@@ -253,3 +253,114 @@ Proof.
   replace (filter (fun _ => true) es) with es in W; [exact W|].
   clear. induction es as [|e es IH]; [reflexivity|]. cbn [filter]. rewrite <- IH. reflexivity.
 Qed.
+
+(* ================================================================================================= *)
+(* 4. expanding a plain solid entry: the library's inner iteration agrees with the recogniser         *)
+(* ================================================================================================= *)
+Lemma stream_chunks_inv : forall fuel bs cs, stream_chunks fuel bs = SOk cs -> bs = ser_chunks cs /\ Forall strict_chunk cs.
+Proof.
+  induction fuel as [|f IH]; intros bs cs; cbn [stream_chunks]; [discriminate|].
+  destruct bs as [|b bs']; [intros [= <-]; split; [reflexivity|constructor]|].
+  destruct (read_strict_chunk (b :: bs')) as [[c r]|] eqn:R; cbn [sbind]; [|discriminate].
+  destruct (stream_chunks f r) as [cs'|] eqn:S; cbn [sbind]; [|discriminate]. intros [= <-].
+  destruct (read_strict_inv _ _ _ R) as (SC & E). destruct (IH _ _ S) as (-> & F).
+  split; [rewrite ser_chunks_cons; exact E|constructor; assumption].
+Qed.
+
+(* the grammar of a solid stream: file entries only *)
+Definition ngroup_of (g : list chunk) (x : read_entry) : Prop :=
+  exists h body e, g = h :: body ++ [e] /\ ty_is h FHED = true /\ ty_is e FEND = true /\ normal_only h body e = SOk x.
+
+Lemma entries_sm_ngroups cs : forall cur es,
+  entries_sm false normal_only cs cur = SOk es ->
+  match cur with
+  | None => exists groups, cs = concat groups /\ Forall2 ngroup_of groups es
+  | Some (h, acc) =>
+    ty_is h FHED = true ->
+    exists body e groups x es', cs = body ++ e :: concat groups /\ es = x :: es' /\
+      ty_is e FEND = true /\ normal_only h (rev acc ++ body) e = SOk x /\ Forall2 ngroup_of groups es'
+  end.
+Proof.
+  induction cs as [|c r IH]; intros cur es; cbn [entries_sm].
+  - destruct cur as [[h acc]|]; [discriminate|]. intros [= <-]. exists []. split; [reflexivity|constructor].
+  - destruct cur as [[h acc]|].
+    + intros H HF. rewrite HF in H. destruct (ty_is c FEND) eqn:T.
+      * destruct (normal_only h (rev acc) c) as [x|] eqn:E; cbn [sbind] in H; [|discriminate].
+        destruct (entries_sm false normal_only r None) as [es'|] eqn:R; cbn [sbind] in H; [|discriminate].
+        inversion H; subst. destruct (IH None es' R) as (groups & EQ & F).
+        exists [], c, groups, x, es'. rewrite app_nil_r. repeat split; try assumption. cbn [app]. rewrite EQ. reflexivity.
+      * destruct (IH (Some (h, c :: acc)) es H HF) as (body & e & groups & x & es' & E1 & E2 & TE & P & F).
+        exists (c :: body), e, groups, x, es'. split; [cbn [app]; rewrite E1; reflexivity|]. split; [exact E2|].
+        split; [exact TE|]. split; [|exact F]. cbn [rev] in P. rewrite <- app_assoc in P. exact P.
+    + destruct (ty_is c FHED || false && ty_is c SHED) eqn:O.
+      * intro H. assert (ty_is c FHED = true) as HF by (rewrite andb_false_l, orb_false_r in O; exact O).
+        destruct (IH (Some (c, [])) es H HF) as (body & e & groups & x & es' & E1 & E2 & TE & P & F).
+        exists ((c :: body ++ [e]) :: groups). split; [cbn [concat app]; rewrite E1, <- app_assoc; reflexivity|].
+        subst es. constructor; [|exact F]. exists c, body, e. repeat split; assumption.
+      * destruct (ty_is_critical (cty c) && negb (known_critical (cty c))); discriminate.
+Qed.
+
+Lemma inner_item_group e rest : wf_chunk e -> ty_is e FEND = true ->
+  forall body fuel acc, Forall wf_chunk body -> Forall (fun c => ty_is c FEND = false) body -> (length body < fuel)%nat ->
+  inner_item fuel (ser_chunks body ++ ser_chunk e ++ rest) acc = Ok (Some (acc ++ body ++ [e], rest)).
+Proof.
+  intros We Te. induction body as [|c body IH]; intros fuel acc W NF L; (destruct fuel as [|fuel]; [cbn [length] in L; lia|]).
+  - rewrite ser_chunks_nil. cbn [app inner_item]. rewrite read_chunk_ser by exact We. rewrite Te. reflexivity.
+  - inversion W; subst. inversion NF; subst. rewrite ser_chunks_cons, <- app_assoc. cbn [inner_item].
+    rewrite read_chunk_ser by assumption. rewrite H3. rewrite IH by (try assumption; cbn [length] in L; lia).
+    rewrite <- app_assoc. reflexivity.
+Qed.
+
+Definition pgroup (g : list chunk) (n : normal_entry) : Prop :=
+  (exists pre e, g = pre ++ [e] /\ Forall wf_chunk g /\ Forall (fun c => ty_is c FEND = false) pre /\ ty_is e FEND = true) /\
+  parse_normal g = Ok n.
+
+Lemma inner_loop_groups : forall groups ns fuel, Forall2 pgroup groups ns -> (length groups < fuel)%nat ->
+  inner_entries_loop fuel (ser_chunks (concat groups)) = (ns, FinOk).
+Proof.
+  induction groups as [|g groups IH]; intros ns fuel F L; inversion F as [|? n ? ns' G F']; subst;
+    (destruct fuel as [|fuel]; [cbn [length] in L; lia|]).
+  - cbn [concat]. rewrite ser_chunks_nil. reflexivity.
+  - destruct G as ((pre & e & -> & W & NF & TE) & P). cbn [concat]. rewrite <- app_assoc, !ser_chunks_app.
+    apply Forall_app in W. destruct W as (Wp & We). inversion We; subst.
+    cbn [inner_entries_loop]. rewrite ser_chunks_cons, ser_chunks_nil, app_nil_r.
+    rewrite (inner_item_group e (ser_chunks (concat groups))) by
+      (try assumption; rewrite !app_length; pose proof (length_ser_chunks_ge pre); lia).
+    cbn [app]. rewrite P. rewrite (IH ns' fuel F') by (cbn [length] in L; lia). reflexivity.
+Qed.
+
+(* SolidEntry::entries on an uncompressed, unencrypted solid entry the recogniser accepted: the
+   EntryIterator ends normally and yields writable entries *)
+Theorem solid_inner_writable s : writable_solid s -> solid_plain s = true ->
+  exists inner, solid_inner_entries s = (inner, FinOk) /\ Forall writable_normal inner.
+Proof.
+  intros (_ & _ & _ & _ & _ & _ & PI) SP.
+  assert (plain_solid (so_hdr s) = true) as PS by exact SP. specialize (PI PS).
+  unfold solid_inner_entries. destruct (inner_entries (concat (so_data s))) as [xs|] eqn:IE; [|discriminate]. clear PI.
+  unfold inner_entries in IE.
+  destruct (stream_chunks (S (length (concat (so_data s)))) (concat (so_data s))) as [cs|] eqn:SC; cbn [sbind] in IE; [|discriminate].
+  destruct (stream_chunks_inv _ _ _ SC) as (EQ & F). rewrite EQ.
+  destruct (entries_sm_ngroups cs None xs IE) as (groups & -> & G).
+  assert (exists ns, Forall2 pgroup groups ns /\ Forall writable_normal ns) as (ns & PG & WN).
+  { clear IE SC EQ. revert F. induction G as [|g x groups xs Hg _ IH]; intro F; [exists []; split; constructor|].
+    cbn [concat] in F. apply Forall_app in F. destruct F as (Fg & Fr). destruct (IH Fr) as (ns & PG & WN).
+    destruct Hg as (h & body & e & -> & HF & EF & NO). unfold normal_only in NO.
+    destruct (strict_normal h body e) as [n|] eqn:SN; cbn [sbind] in NO; [|discriminate].
+    inversion Fg as [|? ? SH Fb]; subst. apply Forall_app in Fb. destruct Fb as (Fb & Fe).
+    exists (n :: ns). split; constructor; try assumption.
+    - split; [|exact (strict_normal_agrees _ _ _ _ HF EF SN)].
+      exists (h :: body), e. split; [reflexivity|]. split.
+      { constructor; [apply SH|]. apply Forall_app. split; eapply Forall_impl; try exact Fb; try exact Fe; intros c Hc; apply Hc. }
+      split; [|exact EF]. constructor.
+      { unfold ty_is. rewrite (ty_is_eq _ _ HF). exact FHED_not_FEND. }
+      pose proof (any_entry_no_end h body e (RNormal n)) as NE. unfold any_entry in NE. rewrite HF in NE.
+      unfold normal_only in NE. rewrite SN in NE. specialize (NE eq_refl).
+      eapply Forall_impl; [|exact NE]. intros c Hc. unfold is_end in Hc. apply orb_false_elim in Hc. apply Hc.
+    - exact (strict_normal_writable _ _ _ _ SH Fb SN). }
+  exists ns. split; [|exact WN].
+  rewrite (inner_loop_groups groups ns _ PG); [reflexivity|].
+  assert (length groups <= length (ser_chunks (concat groups)))%nat; [|lia].
+  clear -PG. induction PG as [|g n groups ns ((pre & e & -> & _) & _) _ IH]; [cbn; lia|].
+  cbn [concat length]. rewrite ser_chunks_app, app_length, ser_chunks_app, app_length, ser_chunks_cons, app_length.
+  pose proof (ser_chunk_length_ge e). lia.
+Qed.
